@@ -51,6 +51,7 @@ var props = map[string]propConf{
 	"C08": {Engine: "E1", QuickBudget: 12, ThorBudget: 600},
 	"C10": {Engine: "E1+E2", QuickBudget: 15, ThorBudget: 600},
 	"C11": {Engine: "E1", QuickBudget: 12, ThorBudget: 600},
+	"C17": {Engine: "E4", QuickBudget: 15, ThorBudget: 600},
 	"C16": {Engine: "E1", QuickBudget: 12, ThorBudget: 600},
 	"C14": {Engine: "E1", QuickBudget: 12, ThorBudget: 600},
 	"C13": {Engine: "E1", QuickBudget: 12, ThorBudget: 600},
